@@ -13,7 +13,8 @@ TRUSTED = [
     "L3: the checker itself (/verif/driver, /verif/rules), mitigated by the seeded self-tests",
 ]
 ASSUME = [
-    "A-ASREF: the caller's AsRef<str>/AsRef<[u8]> implementation is pure",
+    "A-ASREF: the caller's AsRef<str>/AsRef<[u8]> implementation is pure — assumed for the FUNCTIONAL properties only (a haystack is a "
+    "value); for memory safety (C07) it is not assumed: SAFE-ASREF decides which unsafe operations depend on it",
     "A-USERIMPL: user Serializable / TryFrom<usize> / source iterators are deterministic (and Serializable impls are inverse pairs)",
     "A-TARGET: facts are extracted for the host target (64-bit)",
     "structural clauses only: the rules decide necessary conditions visible in the code's shape, not the behaviour over all inputs",
@@ -152,6 +153,7 @@ def run_C07(ctx, R):
     lazy.rule_safe_inv(ctx, R)
     lazy.rule_safe_api(ctx, R)
     lazy.rule_utf8_ctor(ctx, R)
+    lazy.rule_safe_asref(ctx, R)
     lazy.rule_dec(ctx, R)
     lazy.rule_lazy_adapt(ctx, R)
     lazy.rule_lazy_ctor(ctx, R, rules={"LAZY-CTOR"})
